@@ -11,7 +11,7 @@ PROP = {
             "order of the reindexed analysis' file ids and analysed in id order; distinct = hash of (texts, config, setup, steps); "
             "non-trivial = >= 2 surviving files and >= 1 state-changing step applied",
     "min_nontrivial": {"quick": 300, "thorough": 8000},
-    "max_secs": {"quick": 60, "thorough": 1000},
+    "max_secs": {"quick": 600, "thorough": 1500},
     "require_clauses": ["a:reindexed-equals-fresh", "b:census-not-larger-than-fresh", "step:update", "step:remove", "step:re-add", "step:config", "step:config-reload", "step:reindex"],
     "assumptions": COMMON_ASSUME + [
         "the observable dump of src/observe.rs is taken as 'the observable results'",
